@@ -155,8 +155,17 @@ def o7(tier):
     return r
 
 
+def o8(tier):
+    """a re-invited member's record is refreshed from the new invitation: the stale pre-removal record is only kept when the member is still Active"""
+    from props import C16
+    r = C16.o3(tier)
+    r.oid = 'O8'
+    r.title = 'process_welcome (shared with C16-O3): the stored group record is skipped ONLY when the lookup found an Active record; an Inactive / Pending one is overwritten from the invitation, so after a re-invitation the record mirrors the MLS state the welcome carries (epoch, name, relays, Nostr id)'
+    return r
+
+
 def run(tier, seed, only=None):
-    obs = [('O1', o1), ('O2', o2), ('O3', o3), ('O4', o4), ('O5', o5), ('O6', o6), ('O7', o7)]
+    obs = [('O1', o1), ('O2', o2), ('O3', o3), ('O4', o4), ('O5', o5), ('O6', o6), ('O7', o7), ('O8', o8)]
     out = []
     for k, f in obs:
         if only and k not in only:
